@@ -18,8 +18,8 @@ class C08(Prop):
             "execution delays 0..4, box and discrete spaces, latency 0 .. min gap - 1 s with extra quotes exactly at, "
             "inside and just after the latency bound, all episode lengths up to the grid. Non-trivial = delay >= 1 "
             "with more steps than the delay, or a quote inside (t, t+latency] that changes the execution price, or a "
-            "discrete space with delay; distinct = distinct cases")
-    nontrivial_tags = {"delay-active", "latent-reprices", "discrete-delay"}
+            "discrete space with delay, or a repeated episode on the same environment; distinct = distinct cases")
+    nontrivial_tags = {"delay-active", "latent-reprices", "discrete-delay", "repeated-episode"}
     assumptions = [
         "the box space contains the zero vector whenever delay > 0 (otherwise the implementation's own null action is "
         "out of its space and the first step is refused - documented in DESIGN.md)",
@@ -46,6 +46,11 @@ class C08(Prop):
                 ops.append(["step", v])
             else:
                 ops.append(["stepi", (i + rng.randint(0, 1)) % len(sp["allocs"])])
+        if rng.random() < 0.35:
+            # repeated episodes on one environment: the timing claims hold in every episode, not only the first
+            again = [["reset", None, 0]] + [list(o) for o in ops[1:]]
+            rng.shuffle(again[1:]) if False else None
+            ops = ops + again
         case["ops"] = ops
         return case
 
@@ -55,20 +60,28 @@ class C08(Prop):
             return r
         d = case.get("delay", 0)
         sp = case["space"]
-        steps_obs = [o for o in s.obs if o["op"][0] != "reset"]
-        reset = s.obs[0]
+        episodes, cur = [], None
+        for o in s.obs:
+            if o["op"][0] == "reset":
+                cur = dict(reset=o, steps=[])
+                episodes.append(cur)
+            elif cur is not None:
+                cur["steps"].append(o)
+        if len(episodes) > 1:
+            r.tags.add("repeated-episode")
+        quotes = _quotes_by_event(s)
+        for ep in episodes:
+            self.judge_episode(r, s, case, ep["reset"], ep["steps"], d, sp, quotes)
+        return r
+
+    def judge_episode(self, r, s, case, reset, steps_obs, d, sp, quotes):
         if not reset["status"].startswith("ok"):
-            return r
+            return
         if d >= 1 and len(steps_obs) > d:
             r.tags.add("delay-active")
         if d >= 1 and sp["kind"] == "disc":
             r.tags.add("discrete-delay")
         steps, reset_batch, later = expected_delivery(s, reset["lo"], reset["hi"], reset["start"])
-        book = {}
-        for kd, t in reset_batch:
-            pass
-        # quotes by (kind, time) in delivery order: rebuild the book from the implementation's own event list
-        quotes = _quotes_by_event(s)
         delivered = list(reset_batch)
         for k_i, so in enumerate(steps_obs):
             if not so["status"].startswith("ok") or k_i >= len(later):
@@ -80,11 +93,7 @@ class C08(Prop):
                 break
             latent, nonlatent, p = later[k_i]
             # --- which decision is executed now
-            if k_i < d:
-                want = None  # null action
-            else:
-                src = steps_obs[k_i - d]["op"]
-                want = src
+            want = None if k_i < d else steps_obs[k_i - d]["op"]
             reb = so["info"].get("_rebalancing") if so.get("info") else None
             if reb is not None:
                 got = {c.symbol: F(v) for c, v in reb.allocation.items()}
@@ -97,10 +106,6 @@ class C08(Prop):
                 seen = delivered + latent
                 for tr in reb.trades:
                     k = tr.contract.symbol
-                    lastq = None
-                    for kd, t in seen:
-                        if kd == "q:" + k:
-                            lastq = quotes[(kd, t)].pop(0) if False else lastq
                     bidask = _last_quote(quotes, seen, k)
                     if bidask is not None:
                         px = bidask[1] if tr.quantity > 0 else bidask[0]
@@ -112,7 +117,6 @@ class C08(Prop):
                         if pre is not None and pre != bidask:
                             r.tags.add("latent-reprices")
             delivered += latent + nonlatent
-        return r
 
 
 def _quotes_by_event(s):
